@@ -934,7 +934,7 @@ func (u *Unit) havocLoop(st *State, fr *Frame, li *loopInfo) {
 		st.CallCnt[d] = n
 	}
 	if len(ds) > 0 {
-		st.Calls = append(st.Calls, CallEvent{Desigs: ds, Havoc: true})
+		st.Calls = append(st.Calls, CallEvent{Desigs: ds, Havoc: true, HavocVals: map[string]Term{}})
 	}
 	if eff.chans || eff.all {
 		u.havocChans(st)
